@@ -306,6 +306,30 @@ func genUniverse(r *Rng, big bool) (*rgen, []rIndex) {
 			}
 		}
 	}
+	// every virtual name has at least one provider (otherwise most universes fail with "nothing provides")
+	for _, vt := range g.virts {
+		provided := false
+		for _, ix := range indexes {
+			for _, p := range ix.Pkgs {
+				for _, pr := range p.Provides {
+					if pr == vt || strings.HasPrefix(pr, vt+"=") {
+						provided = true
+					}
+				}
+			}
+		}
+		if !provided && r.Chance(90) {
+			ix := &indexes[0]
+			if len(ix.Pkgs) > 0 {
+				k := r.Intn(len(ix.Pkgs))
+				pr := vt
+				if r.Chance(60) {
+					pr = vt + "=" + Pick(r, g.vers[vt])
+				}
+				ix.Pkgs[k].Provides = append(ix.Pkgs[k].Provides, pr)
+			}
+		}
+	}
 	// shuffle package order inside each index
 	for i := range indexes {
 		pk := indexes[i].Pkgs
@@ -517,8 +541,17 @@ func (s resolverSuite) sharedSequence(c rCase, enc []string) []Step {
 // e2eStep: the same family through build.NewMultiArch + MultiArch.BuildPackageLists
 func (s resolverSuite) e2eStep(c rCase, enc []string) []Step {
 	// the world file is written sorted (SetWorld) and read back line by line (GetWorld)
-	c.World = append([]string(nil), c.World...)
-	sort.Strings(c.World)
+	// … after build.initializeApk passed it through sets.List(sets.New(...)): sorted and de-duplicated
+	uniq := map[string]bool{}
+	var w []string
+	for _, x := range c.World {
+		if !uniq[x] {
+			uniq[x] = true
+			w = append(w, x)
+		}
+	}
+	sort.Strings(w)
+	c.World = w
 	res, err := resolverE2E(c)
 	if err != nil {
 		return []Step{{Line: "x.robust\te2e", Go: "setup-error: " + err.Error(), Mode: "oracle-go", GoSpec: "pass", NoImpl: true, Trivial: true, Desc: "multi-arch e2e setup failed", Tags: []string{"e2e:setup-error"}}}
